@@ -4,11 +4,15 @@ use std::{cell::RefCell, collections::BTreeMap, collections::HashMap, rc::Rc};
 
 use ff::PrimeField;
 use midnight_curves::Bls12;
+use group::Curve;
 use midnight_proofs::{
     circuit::Value,
     dev::{cost_model::circuit_model, CellValue, MockProver},
-    plonk::{keygen_vk_with_k, Circuit, ConstraintSystem, FloorPlanner},
-    poly::kzg::{params::ParamsKZG, KZGCommitmentScheme},
+    plonk::{commit_to_instances, keygen_vk_with_k, Circuit, ConstraintSystem, FloorPlanner, VerifyingKey},
+    poly::{
+        commitment::PolynomialCommitmentScheme,
+        kzg::{params::ParamsKZG, KZGCommitmentScheme},
+    },
     utils::SerdeFormat,
 };
 use midnight_zk_stdlib::MidnightCircuit;
@@ -520,9 +524,100 @@ fn view_digest_from_mock(mp: &MockProver<F>, cs: &CsInfo, k: u32) -> u128 {
     view_digest(&fixed, &sel)
 }
 
+/// A cell assigned by two different regions (the floor planner placed them on top of each
+/// other): `(cell, first region, second region)`.
+fn cell_collision(evs: &[AbsEv]) -> Option<String> {
+    let mut owner: HashMap<(u8, usize, usize), usize> = HashMap::new();
+    let mut region = 0usize;
+    let mut inside = false;
+    let mut names: Vec<String> = vec![];
+    for e in evs {
+        match e {
+            AbsEv::Enter(n) => {
+                inside = true;
+                names.push(n.clone());
+                region = names.len() - 1;
+            }
+            AbsEv::Exit => inside = false,
+            AbsEv::Adv(c, r, _) | AbsEv::Fix(c, r, _) => {
+                let kind = if matches!(e, AbsEv::Adv(..)) { 0u8 } else { 1u8 };
+                // constants (assigned after the region) belong to the region that pinned them
+                let me = if inside { region } else { usize::MAX };
+                if let Some(prev) = owner.insert((kind, *c, *r), me) {
+                    if prev != me {
+                        let nm = |i: usize| if i == usize::MAX { "<constants>".to_string() } else { format!("{i}:{}", names[i]) };
+                        return Some(format!("{}@{} assigned by region {} and by region {}", col_name(kind, *c), r, nm(prev), nm(me)));
+                    }
+                }
+            }
+            _ => {}
+        }
+    }
+    None
+}
+
+/// The commitments keygen must publish for the fixed columns and the selector columns, computed
+/// from the recorded call sequence alone (`keygen.rs: Assembly` + `keygen_vk_with_k`).
+fn fixed_commitments_match(
+    evs: &[AbsEv],
+    cs: &CsInfo,
+    k: u32,
+    params: &ParamsKZG<Bls12>,
+    vk: &VerifyingKey<F, Scheme>,
+) -> bool {
+    let n = 1usize << k;
+    let usable = n - cs.unusable;
+    let mut fixed: Vec<Vec<F>> = vec![vec![F::from(0); n]; cs.n_fixed];
+    let mut sel: Vec<Vec<F>> = vec![vec![F::from(0); n]; cs.n_sel];
+    for e in evs {
+        match e {
+            AbsEv::Fix(c, r, v) => fixed[*c][*r] = *v,
+            AbsEv::Fill(c, r, v) => {
+                for row in *r..usable {
+                    fixed[*c][row] = *v;
+                }
+            }
+            AbsEv::Sel(s, r) => sel[*s][*r] = F::from(1),
+            _ => {}
+        }
+    }
+    let domain = vk.get_domain();
+    let coms: Vec<_> = fixed
+        .into_iter()
+        .chain(sel)
+        .map(|col| <Scheme as PolynomialCommitmentScheme<F>>::commit_lagrange(params, &domain.lagrange_from_vec(col)))
+        .collect();
+    let real = vk.fixed_commitments();
+    coms.len() == real.len() && coms.iter().zip(real.iter()).all(|(a, b)| a == b)
+}
+
 pub struct FamilyOut {
     pub k: u32,
     pub violated: bool,
+}
+
+/// The single-pass layouter runs every region closure twice: on a `RegionShape` (to learn the
+/// columns and the row count) and then for real. The placement is only sound if the second run
+/// touches nothing the first did not declare.
+fn check_passes(ctx: &mut Ctx, name: &str, class: &str, log: &SpyLog) -> bool {
+    for (k, it) in log.items.iter().enumerate() {
+        if let Item::Region { passes, name: rname } = it {
+            let a: Vec<RelEv> = passes.first().map(|p| p.iter().map(|e| e.shape_view()).collect()).unwrap_or_default();
+            let b: Vec<RelEv> = passes.last().map(|p| p.iter().map(|e| e.shape_view()).collect()).unwrap_or_default();
+            if passes.len() != 2 || a != b {
+                let only_b: Vec<String> = b.iter().filter(|e| !a.contains(e)).take(12).map(|e| e.render(false)).collect();
+                let only_a: Vec<String> = a.iter().filter(|e| !b.contains(e)).take(12).map(|e| e.render(false)).collect();
+                ctx.oracle_fail(
+                    &format!("passes:{name}"),
+                    "a region closure makes different calls in the layouter's shape pass and in its assignment pass (cells used but not declared in the region shape)",
+                    json!({"circuit": name, "class": class, "item": k, "region": rname, "passes": passes.len(),
+                           "only_in_assignment_pass": only_b, "only_in_shape_pass": only_a}),
+                );
+                return false;
+            }
+        }
+    }
+    true
 }
 
 /// Everything that is independent of how the circuit was built.
@@ -554,25 +649,14 @@ pub fn check_family<C: Circuit<F>>(
     // shape pass vs assignment pass
     {
         let log = s0.log.as_ref().unwrap();
-        for (k, it) in log.items.iter().enumerate() {
-            if let Item::Region { passes, name: rname } = it {
-                let same = passes.len() == 2
-                    && passes[0].iter().map(|e| e.shape_view()).collect::<Vec<_>>()
-                        == passes[1].iter().map(|e| e.shape_view()).collect::<Vec<_>>();
-                if !same {
-                    ctx.oracle_fail(
-                        &format!("passes:{name}"),
-                        "a region closure behaves differently in the layouter's shape pass and assignment pass",
-                        json!({"circuit": name, "item": k, "region": rname, "passes": passes.len()}),
-                    );
-                    break;
-                }
-            }
-        }
+        check_passes(ctx, name, "unknown", log);
         ctx.count_n("regions", log.items.iter().filter(|i| matches!(i, Item::Region { .. })).count() as u64);
         ctx.count_n("tables", log.items.iter().filter(|i| matches!(i, Item::Table { .. })).count() as u64);
     }
     ctx.count_n("abs_events", s0.evs.len() as u64);
+    if let Some(c) = cell_collision(&s0.evs) {
+        ctx.oracle_fail(&format!("overlap:{name}"), "two regions are placed on the same cell", json!({"circuit": name, "class": "unknown", "cell": c}));
+    }
 
     // cost model of the keygen circuit
     let m0 = match model_triple(unknown) {
@@ -639,14 +723,42 @@ pub fn check_family<C: Circuit<F>>(
             }
         };
         ctx.count(if kn.sat { "class:sat" } else { "class:unsat" });
+        if let Some(log) = &s.log {
+            if !check_passes(ctx, name, &kn.class, log) {
+                violated = true;
+            }
+        }
         if let Some((i, a, b)) = first_diff(&e0, &s.evs) {
             violated = true;
+            // what exactly differs: the part keygen keeps, or only the advice cells used
+            let keep = |v: &[AbsEv]| v.iter().filter(|e| e.is_structural()).cloned().collect::<Vec<_>>();
+            let fixed_part_equal = keep(&e0) == keep(&s.evs);
+            let cells = |v: &[AbsEv]| {
+                v.iter()
+                    .filter_map(|e| if let AbsEv::Adv(c, r, _) = e { Some((*c, *r)) } else { None })
+                    .collect::<std::collections::BTreeSet<_>>()
+            };
+            let (c0, c1) = (cells(&e0), cells(&s.evs));
+            let only_w: Vec<String> = c1.difference(&c0).take(16).map(|(c, r)| format!("a{c}@{r}")).collect();
+            let only_k: Vec<String> = c0.difference(&c1).take(16).map(|(c, r)| format!("a{c}@{r}")).collect();
             ctx.oracle_fail(
-                &format!("struct:{name}"),
-                "circuit structure differs between the unknown witness (keygen) and a concrete witness",
-                json!({"circuit": name, "class": kn.class, "witness": kn.witness, "event": i, "keygen": a, "witness_run": b}),
+                &format!("{}:{name}", if fixed_part_equal { "struct-advice" } else { "struct" }),
+                if fixed_part_equal {
+                    "advice cell usage differs between the unknown witness (keygen) and a concrete witness (fixed cells, selectors and copies are equal)"
+                } else {
+                    "circuit structure differs between the unknown witness (keygen) and a concrete witness"
+                },
+                json!({"circuit": name, "class": kn.class, "witness": kn.witness, "event": i, "keygen": a, "witness_run": b,
+                       "fixed_part_equal": fixed_part_equal, "advice_cells_only_with_witness": only_w,
+                       "advice_cells_only_at_keygen": only_k}),
             );
             continue;
+        }
+        if ci < 4 || ctx.thorough() {
+            if let Some(c) = cell_collision(&s.evs) {
+                violated = true;
+                ctx.oracle_fail(&format!("overlap:{name}"), "two regions are placed on the same cell", json!({"circuit": name, "class": kn.class, "cell": c}));
+            }
         }
         // instance values steer nothing either
         let inst = derive_instance(&s);
@@ -741,7 +853,19 @@ pub fn check_family<C: Circuit<F>>(
             let params = srs.get(k).clone();
             if vk0.is_none() {
                 match catch(|| keygen_vk_with_k::<F, Scheme, _>(&params, unknown, k)) {
-                    Ok(Ok(vk)) => vk0 = Some(vk.to_bytes(SerdeFormat::RawBytes)),
+                    Ok(Ok(vk)) => {
+                        // the key commits to exactly the fixed/selector columns of the recorded run
+                        ctx.count("vk_fixed_commitments_checked");
+                        if !fixed_commitments_match(&s0.evs, &s0.cs, k, &params, &vk) {
+                            violated = true;
+                            ctx.oracle_fail(
+                                &format!("vk-fixed:{name}"),
+                                "fixed/selector commitments of the verifying key differ from the commitments of the recorded fixed assignment",
+                                json!({"circuit": name, "k": k}),
+                            );
+                        }
+                        vk0 = Some(vk.to_bytes(SerdeFormat::RawBytes))
+                    }
                     other => {
                         ctx.oracle_fail(&format!("keygen:{name}"), "keygen_vk fails at the k of the cost model", json!({"circuit": name, "k": k, "error": format!("{:?}", other.map(|r| r.map(|_| ())))}));
                     }
@@ -798,6 +922,77 @@ fn derive_rows(s: &Synth) -> usize {
     m
 }
 
+/// Real keys and proofs through the public `zk_stdlib` API: the key is generated from the
+/// relation alone (no witness), the proof with the witness; it must verify, and the number of
+/// public inputs recorded in the key must be the number the witness run binds.
+fn prove_flow(ctx: &mut Ctx, srs: &mut SrsCache, rel: &OpRel, name: &str, cls: &[crate::ops::Class], max_classes: usize, max_k: u32) {
+    use midnight_zk_stdlib as zs;
+    let unk = MidnightCircuit::from_relation(rel);
+    let Ok(k) = catch(|| unk.min_k()) else { return };
+    if k > max_k {
+        ctx.count("flow_skipped_k");
+        return;
+    }
+    let params = srs.get(k).clone();
+    let keys = catch(|| {
+        let vk = zs::setup_vk(&params, rel);
+        let pk = zs::setup_pk(rel, &vk);
+        (vk, pk)
+    });
+    let (vk, pk) = match keys {
+        Ok(x) => x,
+        Err(e) => {
+            ctx.oracle_fail(&format!("flow-keygen:{name}"), "setup_vk/setup_pk without witness fails", json!({"circuit": name, "k": k, "error": e}));
+            return;
+        }
+    };
+    let mut done = 0;
+    for c in cls.iter().filter(|c| c.sat) {
+        if done >= max_classes {
+            break;
+        }
+        // public inputs of this witness, from a recorded run
+        let circ = MidnightCircuit::new(rel, Value::known(vec![]), Value::known(c.w.clone()), Some(8));
+        let Ok(s) = synth(&circ, false, None) else { continue };
+        let inst = derive_instance(&s);
+        let pi = inst.get(1).cloned().unwrap_or_default();
+        let committed = inst.first().cloned().unwrap_or_default();
+        if committed != c.w.committed {
+            continue;
+        }
+        done += 1;
+        let res = catch(|| {
+            let proof = zs::prove::<OpRel, blake2b_simd::State>(
+                &params,
+                &pk,
+                rel,
+                &pi,
+                c.w.clone(),
+                ChaCha8Rng::seed_from_u64(7),
+            )
+            .map_err(|e| format!("prove: {e:?}"))?;
+            let com = if committed.is_empty() {
+                None
+            } else {
+                Some(commit_to_instances::<F, Scheme>(&params, vk.vk().get_domain(), &committed).to_affine())
+            };
+            zs::verify::<OpRel, blake2b_simd::State>(&params.verifier_params(), &vk, &pi, com, &proof)
+                .map_err(|e| format!("verify: {e:?}"))
+        });
+        ctx.count("flow_proofs");
+        match res {
+            Ok(Ok(())) => ctx.count("flow_verified"),
+            other => {
+                ctx.oracle_fail(
+                    &format!("flow:{name}"),
+                    "proof made with the witness does not verify under the key generated without witness",
+                    json!({"circuit": name, "class": c.name, "witness": c.w.render(), "k": k, "result": format!("{other:?}")}),
+                );
+            }
+        }
+    }
+}
+
 /// Constant cache (`native_chip.rs: cached_fixed`): the constants for which the real chip opens
 /// an "Assign fixed" region, in order, against the model's cache.
 fn cache_case<C: Circuit<F>>(ctx: &mut Ctx, name: &str, cs: &[u64], unknown: &C) {
@@ -829,13 +1024,25 @@ fn cache_case<C: Circuit<F>>(ctx: &mut Ctx, name: &str, cs: &[u64], unknown: &C)
 
 // ---------------------------------------------------------------------------------------------
 
+/// Operation circuits proved for real in the quick tier.
+const FLOW_QUICK: &[&str] = &[
+    "Add", "IsZero", "Select", "ToLeBits(Some(8),true)", "LowerThan(8)", "PiNative(5)", "PiCommitted",
+    "FixedSeq([1,2,1,3,2,1])", "JubAdd", "Poseidon(2)", "VecLimits", "MapGet", "Base64(8,true)", "BigAdd(64)",
+];
+
 pub fn run(ctx: &mut Ctx) {
     let mut srs = SrsCache::new();
     let tier = ctx.tier.clone();
     let nrand = if ctx.quick() { 2 } else { 6 };
     let small_limit = if ctx.quick() { 400 } else { 1500 };
+    let only = std::env::var("C09_ONLY").ok();
     for op in all_ops(&tier) {
         let name = op.name();
+        if let Some(f) = &only {
+            if !name.starts_with(f.as_str()) {
+                continue;
+            }
+        }
         let mut rng = ctx.rng(&format!("classes:{name}"));
         let rel = OpRel { op: op.clone() };
         let cls = classes(&op, &mut rng, nrand);
@@ -854,6 +1061,12 @@ pub fn run(ctx: &mut Ctx) {
         let _ = check_family(ctx, &mut srs, &name, &unknown, &knowns, small_limit);
         if let Op::FixedSeq(cs) = &op {
             cache_case(ctx, &name, cs, &unknown);
+        }
+        // real proofs
+        let flow = if ctx.quick() { FLOW_QUICK.contains(&name.as_str()) } else { true };
+        if flow {
+            let (nc, mk) = if ctx.quick() { (2, 10) } else { (3, 13) };
+            prove_flow(ctx, &mut srs, &rel, &name, &cls, nc, mk);
         }
     }
 }
